@@ -88,6 +88,9 @@ func (g *c20gen) expr(d int) gen.Expr {
 	if d <= 0 {
 		switch r.Intn(5) {
 		case 0:
+			if r.Intn(3) == 0 {
+				return &gen.ENum{Text: "1" + g.u() + []string{".5", ".25", ".125"}[r.Intn(3)]} // anchored at its first digit, like an integer
+			}
 			return &gen.ENum{Text: "1" + g.u()}
 		case 1:
 			s := "s" + g.u()
@@ -402,6 +405,23 @@ type posErr interface{ Start() parse.Pos }
 
 var errPosRe = regexp.MustCompile(`on line (\d+), column (\d+)`)
 
+// errTextProblem reports what is wrong with the text of an error whose position is (l, c): the text is what
+// most callers see, so a position it mentions must be the same one, and it must not be a botched format.
+func errTextProblem(err error, l, c int) string {
+	msg := err.Error()
+	if strings.Contains(msg, "%!") {
+		return "the message is a botched format: " + msg
+	}
+	if m := errPosRe.FindStringSubmatch(msg); m != nil {
+		ml, _ := strconv.Atoi(m[1])
+		mc, _ := strconv.Atoi(m[2])
+		if ml != l || mc != c {
+			return fmt.Sprintf("the message says line %d, column %d but the error's position is line %d, column %d: %s", ml, mc, l, c, msg)
+		}
+	}
+	return ""
+}
+
 func errPosition(err error) (int, int, bool) {
 	if pe, ok := err.(posErr); ok {
 		p := pe.Start()
@@ -507,6 +527,8 @@ func (p *c20) Run(i int) (res fw.Result) {
 		}
 		if l != wl || c != wc {
 			res.Fail("wrong-error-position", key, fmt.Sprintf("%s at line %d, column %d, but the error is located at line %d, column %d: %v", what, wl, wc, l, c, err), in)
+		} else if bad := errTextProblem(err, l, c); bad != "" {
+			res.Fail("wrong-error-text", key, what+": "+bad, in)
 		}
 		res.AddObs("error_positions_checked", 1)
 		res.UniqueNT = 1
@@ -685,7 +707,7 @@ func anchorList(byKind map[string]map[anchorPos]int, kinds []string) string {
 var c20Broken = []string{
 	"ok {% if x %} unclosed", "a {{ 1 + }} b", "x {% zork %} y", "{{ 'unclosed }}", "line1\nline2 {% for %}", "{% block b %}", "{{ a @ b }}", "{% include %}",
 	"a\n{% for 1 in b %}x{% endfor %}", "{% for k, 2 in b %}x{% endfor %}", "{% for a in b c %}x{% endfor %}", "{% for a b %}x{% endfor %}", "{% for a in %}x{% endfor %}", "{% for a in b if %}x{% endfor %}",
-	"a {{ x is 2 }}", "{{ x is 'lit' }}", "{{ x is }}", "{{ x is not }}", "{{ a ? b }}", "{{ a ? : }}", "{{ (a }}", "{{ a) }}", "{{ [a }}", "{{ {a: } }}", "{{ {'a' 1} }}", "{{ a[ }}", "{{ a. }}", "{{ a|  }}", "{{ f(a, }}", "{{ a.b( }}",
+	"a {{ x is 2 }}", "{{ x is 'lit' }}", "{{ x is '100%' }}", "{% for '%d items' in xs %}x{% endfor %}", "{{ n is (m % 2) }}", "{% for 12.5 in xs %}x{% endfor %}", "{{ '%s' 1 }}", "{% %s %}", "{{ x is }}", "{{ x is not }}", "{{ a ? b }}", "{{ a ? : }}", "{{ (a }}", "{{ a) }}", "{{ [a }}", "{{ {a: } }}", "{{ {'a' 1} }}", "{{ a[ }}", "{{ a. }}", "{{ a|  }}", "{{ f(a, }}", "{{ a.b( }}",
 	"{{ \"x#{ \" }}", "{{ \"x#{ a b }\" }}", "{{ 1 2 }}", "{{ }}", "{{ a b }}", "{{ not }}", "{{ - }}", "{{ a + * b }}", "{{ a in }}", "{{ .. }}",
 	"{% if %}x{% endif %}", "{% if a %}x{% elseif %}y{% endif %}", "{% if a %}x{% else %}y{% else %}z{% endif %}", "{% if a %}x{% endfor %}", "{% endif %}", "{% else %}",
 	"{% set %}", "{% set 1 = 2 %}", "{% set a = %}", "{% set a %}x", "{% set a b %}", "{% block %}x{% endblock %}", "{% block 1 %}x{% endblock %}", "{% block b %}x{% endblock c %}",
@@ -758,6 +780,13 @@ func (p *c20) runNamed(res *fw.Result, j int) {
 				named := strings.Contains(err.Error(), bname)
 				if n, ok := err.(interface{ Name() string }); ok && n.Name() == bname {
 					named = true
+				}
+				if l, c, ok := errPosition(err); ok {
+					if bad := errTextProblem(err, l, c); bad != "" {
+						res.Fail("wrong-error-text", key, bad, in)
+					}
+				} else if strings.Contains(err.Error(), "%!") {
+					res.Fail("wrong-error-text", key, "the message is a botched format: "+err.Error(), in)
 				}
 				if !named {
 					res.Fail("template-not-named", key, fmt.Sprintf("error %q raised while loading %q via %s does not identify the template", err, bname, v), in)
